@@ -3,20 +3,24 @@
 (* generator (and every seeded value the driver produced, read from ValuesFile:     *)
 (* rt records {ty, v}) TLC derives the mutants of its encoding with the operators   *)
 (* of CodecMut and writes the cases {ty, cls, in}.  Classes selects mutation        *)
-(* classes; K bounds the marks used per class; types whose richest value encodes    *)
-(* to more than BigLimit bytes contribute only their minimal and richest value      *)
-(* with K = 2 (they are compositions of types that are covered on their own).       *)
+(* classes; K bounds the marks used per class.  To bound the volume, the values     *)
+(* used depend on the size of the type's richest encoding:                          *)
+(*   <= MedLimit bytes   all of Vals(type), K marks per class, seeded samples       *)
+(*   <= BigLimit bytes   minimal and richest value, 2 marks per class               *)
+(*   larger              minimal value only, 2 marks per class                      *)
+(* (the larger types are compositions of types that are covered on their own).      *)
 EXTENDS CodecMut, Json, SequencesExt
-CONSTANTS OutFile, ValuesFile, Names, Classes, K, BigLimit
+CONSTANTS OutFile, ValuesFile, Names, Classes, K, MedLimit, BigLimit
 VARIABLE x
 
-Big(n) == Len(EncC(Schema[n], MaxV(Schema[n]))) > BigLimit
-ValsFor(n) == IF Big(n) THEN {MinV(Schema[n]), MaxV(Schema[n])} ELSE Vals(Schema[n])
-KFor(n) == IF Big(n) THEN 2 ELSE K
+MaxLen(n) == Len(EncC(Schema[n], MaxV(Schema[n])))
+ValsFor(n) == IF MaxLen(n) <= MedLimit THEN Vals(Schema[n])
+              ELSE IF MaxLen(n) <= BigLimit THEN {MinV(Schema[n]), MaxV(Schema[n])} ELSE {MinV(Schema[n])}
+KFor(n) == IF MaxLen(n) <= MedLimit THEN K ELSE 2
 CasesOf(n, v, k) == {[ty |-> n, cls |-> c.cls, in |-> c.in] : c \in {c \in Mutants(Schema[n], v, k) : c.cls \in Classes}}
 SpecCases == UNION {UNION {CasesOf(n, v, KFor(n)) : v \in ValsFor(n)} : n \in Names}
 \* seeded values from the driver (only well-formed ones of the selected types, and not the huge ones)
-SampleCases(T) == UNION {IF T[i].ty \in Names /\ Len(T[i].encs) > 0 /\ Len(T[i].encs[1]) <= BigLimit
+SampleCases(T) == UNION {IF T[i].ty \in Names /\ Len(T[i].encs) > 0 /\ Len(T[i].encs[1]) <= MedLimit /\ MaxLen(T[i].ty) <= MedLimit
                          THEN LET ty == Schema[T[i].ty]
                                   cv == Canon(ty, T[i].v) IN
                               IF Valid(ty, cv) THEN CasesOf(T[i].ty, cv, K) ELSE {}
